@@ -133,7 +133,8 @@ LEDGER_VARIANTS = ["genuine", "genuine-reordered", "key-replaced", "btc-key-repl
                    "app-message-signed-by-the-untweaked-attestation-key",
                    "message-padded-and-a-member-naming-the-good-part",
                    "message-padded-and-a-member-naming-the-good-part",
-                   "genuine-with-members-the-format-does-not-define"]
+                   "genuine-with-members-the-format-does-not-define",
+                   "keys-hash-equal-only-in-part", "keys-hash-equal-only-in-part"]
 
 
 def tail_bytes(rng, n):
@@ -309,6 +310,18 @@ def ledger_case(acc, rng, variant, tmpdir, case):
                 for member in rng.sample(["extract", "slice", "comment", "value", "valid"],
                                          rng.randint(1, 2)):
                     e[member] = rng.choice(["10:42", ":", "1:", "-65:", "0:0", ":10", True])
+    elif variant == "keys-hash-equal-only-in-part":
+        n_ = rng.choice([31, 16, 16, 8, 4])
+        other = bytearray(rng.randbytes(32))
+        if rng.random() < 0.7:
+            other[:n_] = info["keys_hash"][:n_]
+        else:
+            other[-n_:] = info["keys_hash"][-n_:]
+        if bytes(other) == info["keys_hash"]:
+            other[-1] ^= 1
+        la.resign(doc, info, "signer", info["signer_msg"].replace(info["keys_hash"],
+                                                                  bytes(other)), rng)
+        expect_ok = False
     elif variant == "ui-key-is-another-of-the-operator-keys":
         # the UI vouches for one of the operator's own keys - but not the BTC one
         other = rng.choice([p_ for p_ in keys if p_ != la.BTC_PATH])
@@ -443,6 +456,7 @@ def ledger_case(acc, rng, variant, tmpdir, case):
 # --------------------------------------------------------------------- SGX --
 
 SGX_VARIANTS = ["genuine", "genuine-reordered", "key-replaced", "keys-swapped-paths",
+                "keys-hash-equal-only-in-part", "keys-hash-equal-only-in-part",
                 "key-added", "key-removed", "msg-len+1", "msg-len-1", "msg-len+32",
                 "msg-len-32", "header-dot-wildcard", "header-foreign", "header-major6",
                 "missing-quote-target", "wrong-root", "root-not-self-signed", "root-expired",
@@ -470,6 +484,19 @@ def sgx_case(acc, rng, variant, tmpdir, case):
         for pth in sorted(keys, key=natural):
             h.update(g1.pub65(keys[pth]))
         signed_kh = h.digest()
+        expect_ok = False
+    if variant == "keys-hash-equal-only-in-part":
+        # the attested hash is the operator's in its first (or last) 4..31 bytes and another
+        # elsewhere - one byte, the second half: it is the hash of other keys
+        n_ = rng.choice([31, 16, 16, 8, 4])
+        other = bytearray(rng.randbytes(32))
+        if rng.random() < 0.7:
+            other[:n_] = kh[:n_]
+        else:
+            other[-n_:] = kh[-n_:]
+        if bytes(other) == kh:
+            other[-1] ^= 1
+        signed_kh = bytes(other)
         expect_ok = False
     msg, fields = g2.powhsm_message(rng, signed_kh, platform=b"sgx")
     if variant.startswith("msg-len"):
